@@ -207,7 +207,7 @@ func c04r2(c *Ctx, id string) {
 				found = true
 				ro := w.Origin(cc.Args[0])
 				ao := w.Origin(cc.Args[1])
-				okR := strings.HasPrefix(ro, "param("+pw.Params[0].Name()+").")
+				okR := strings.HasPrefix(ro, "recv.")
 				okA := false
 				for _, p := range pw.Params[1:] {
 					if isUint16(p.Type()) && ao == "param("+p.Name()+")" {
